@@ -165,6 +165,9 @@ var c12Actions = []struct {
 	{"placeholder", `map("a", _)`, true, ""},
 	{"range-kind", "range fnilranger.R }}x{{ end", true, ""},
 	{"range-kind", "range fsendonly }}x{{ end", true, ""},
+	{"unknown-method", "fnilfaces.Err.Error()", true, ""},
+	{"unknown-method", "fnilfaces.S.String()", true, ""},
+	{"unknown-field", "fnilfaces.Err.Error", true, ""},
 	{"range-kind", "range fsendonlyptr }}x{{ end", true, ""},
 	{"range-kind", "range fsendonlyholder.Sink }}x{{ end", true, ""},
 	{"range-kind", "range fsendonlyholder.PSink }}x{{ end", true, ""},
@@ -266,6 +269,7 @@ func genC12(t *rapid.T) c12Case {
 	g.p.Vars["fnilranger"] = mj.Recipe{T: "rangerholder"}
 	g.p.Vars["fsendonly"] = mj.Recipe{T: "chan<- int"}
 	g.p.Vars["fsendonlyptr"] = mj.Recipe{T: "*chan<- int"}
+	g.p.Vars["fnilfaces"] = mj.Recipe{T: "nil-ifaces"}
 	g.p.Vars["fsendonlyholder"] = mj.Recipe{T: "sendonly-holder"}
 	g.p.Vars["fpuser"] = mj.Recipe{T: "*user", S: "pu"}
 	g.p.Vars["fikmap"] = mj.Recipe{T: "map[any]int"}
@@ -401,7 +405,7 @@ func judgeC12(c c12Case) (v core.Verdict) {
 
 func TestC12(t *testing.T) {
 	core.Run(t, "C12",
-		"template sets (executed file, included file in a sub-directory, imported block library, extended layout, overriding block in the leaf) (a sixth of the cases with percent signs in every template name) with exactly one failing action out of 90 (every class the statement lists, several spellings each, plus errors reported by called functions, one of them wrapping a Go runtime error as its cause) at a generated position: preceded by multi-line text, multi-line comments, trimming actions, other actions on the same line and multi-line ranges, at nesting depth 0-3 inside if/else/range/block/yield-content (also content rendered from inside two declaring lists of the block body); also: send-only channels behind a pointer, in an interface slot and as a defined type; oracle = no panic, non-nil error, (\"file\":line) equal to the printer's ground truth for self-detected failures, writer content equal to the reference interpreter's output up to the failing action; non-trivial = line>=2 in a file other than the executed one, or nesting depth>=2",
+		"template sets (executed file, included file in a sub-directory, imported block library, extended layout, overriding block in the leaf) (a sixth of the cases with percent signs in every template name) with exactly one failing action out of 90 (every class the statement lists, several spellings each, plus errors reported by called functions, one of them wrapping a Go runtime error as its cause) at a generated position: preceded by multi-line text, multi-line comments, trimming actions, other actions on the same line and multi-line ranges, at nesting depth 0-3 inside if/else/range/block/yield-content (also content rendered from inside two declaring lists of the block body); also: send-only channels behind a pointer, in an interface slot and as a defined type; round 10: methods of nil values in slots of interface types that have methods; oracle = no panic, non-nil error, (\"file\":line) equal to the printer's ground truth for self-detected failures, writer content equal to the reference interpreter's output up to the failing action; non-trivial = line>=2 in a file other than the executed one, or nesting depth>=2",
 		genC12, judgeC12)
 }
 
